@@ -10,6 +10,8 @@ double num_of_id(long id)
 }
 static char *own_str(const char *s) { size_t n = strlen(s) + 1; char *p = (char*)al_raw(n); memcpy(p, s, n); return p; }
 
+static int vb_flagged;
+cJSON *vb_build_flagged(const jv *v) { cJSON *t; vb_flagged = 1; t = vb_build(v); vb_flagged = 0; return t; }
 cJSON *vb_build(const jv *v)
 {
     cJSON *n; const char *t; size_t k; cJSON *prev = NULL;
@@ -21,7 +23,9 @@ cJSON *vb_build(const jv *v)
         case 't': n->type = cJSON_True; n->valueint = 1; break;
         case 'f': n->type = cJSON_False; break;
         case '#': n->type = cJSON_Number; n->valuedouble = num_of_id(jv_int(jv_at(v, 1))); n->valueint = NUMCAT_INT[jv_int(jv_at(v, 1))]; break;
-        case 's': n->type = cJSON_String; n->valuestring = own_str(jv_bytes(jv_at(v, 1), NULL)); break;
+        case 's': n->type = cJSON_String;
+                  if (vb_flagged) { n->type |= cJSON_IsReference; n->valuestring = cm_string(jv_bytes(jv_at(v, 1), NULL)); } else n->valuestring = own_str(jv_bytes(jv_at(v, 1), NULL));
+                  break;
         case 'r': n->type = cJSON_Raw; n->valuestring = own_str(jv_bytes(jv_at(v, 1), NULL)); break;
         case 'a': case 'o': {
             const jv *ms = jv_at(v, 1);
@@ -29,7 +33,7 @@ cJSON *vb_build(const jv *v)
             for (k = 0; ms && k < ms->n; k++) {
                 cJSON *c;
                 if (t[0] == 'a') c = vb_build(ms->e[k]);
-                else { c = vb_build(jv_at(ms->e[k], 1)); if (c) c->string = own_str(jv_bytes(jv_at(ms->e[k], 0), NULL)); }
+                else { c = vb_build(jv_at(ms->e[k], 1)); if (c) { if (vb_flagged) { c->string = cm_string(jv_bytes(jv_at(ms->e[k], 0), NULL)); c->type |= cJSON_StringIsConst; } else c->string = own_str(jv_bytes(jv_at(ms->e[k], 0), NULL)); } }
                 if (!c) continue;
                 if (!prev) n->child = c; else { prev->next = c; c->prev = prev; }
                 prev = c;
